@@ -55,6 +55,185 @@ package bloomsearch
 //@ extern time.Time.IsZero
 //@ pure
 
+//@ extern errors.Join
+//@ pure
+
+// A context's Done channel is a function of the context; Err is non-nil once a
+// receive from that channel has completed (the context package's contract).
+//@ specfun doneChan(c iface) int
+//@ extern context.Context.Done
+//@ pure
+//@ ensures result == doneChan(recv)
+//@ extern context.Context.Err
+//@ pure
+//@ ensures ghost.recvs[doneChan(recv)] > 0 ==> result != nil
+
+// ---------------------------------------------------------------------------
+// Ghost state. Only contracts update it: extern contracts of the store
+// interfaces (each call bumps its counter; the "OK" counter only when the call
+// returned nil) and "entry" clauses of the answer helpers. The built-in ghost
+// maps sends/nilsends/recvs count completed channel operations per channel and
+// are updated by the encoder at every send / select / receive instruction.
+// ---------------------------------------------------------------------------
+
+//@ ghostvar attempts int      // calls of sendOptionalWithContext: one per waiter per answer round
+//@ ghostvar sendRounds int    // calls of sendToChannelsWithContext: answer rounds
+//@ ghostvar nilRounds int     // answer rounds whose value is nil (success acknowledgements)
+//@ ghostvar updateOKAtNilRound int   // value of updateOK when the last nil answer round started
+
+//@ ghostvar creates int       // DataStore.CreateFile calls
+//@ ghostvar created int       // ... that returned a nil error
+//@ ghostvar writes int        // Write calls on a store writer
+//@ ghostvar closeCalls int    // Close calls on a store writer
+//@ ghostvar closeOK int       // ... that returned nil
+//@ ghostvar aborts int        // Abort calls on a store writer
+//@ ghostvar tombstones int    // DataStore.TombstoneFile calls
+//@ ghostvar opens int         // DataStore.OpenFile calls
+//@ ghostvar updates int       // MetaStore.Update calls
+//@ ghostvar updateOK int      // ... that returned nil
+//@ ghostvar closeOKAtUpdate int      // value of closeOK when Update was last called
+//@ ghostvar updateOKAtTombstone int  // value of updateOK when TombstoneFile was last called
+
+// Store interfaces: results are unconstrained (any call may fail, in any
+// combination); each call only records that it happened.
+//@ extern DataStore.CreateFile
+//@ modifies ghost.creates, ghost.created
+//@ ensures ghost.creates == old(ghost.creates) + 1
+//@ ensures ghost.created == old(ghost.created) + (result2 == nil ? 1 : 0)
+
+//@ extern DataStore.TombstoneFile
+//@ modifies ghost.tombstones, ghost.updateOKAtTombstone
+//@ ensures ghost.tombstones == old(ghost.tombstones) + 1
+//@ ensures ghost.updateOKAtTombstone == ghost.updateOK
+
+//@ extern DataStore.OpenFile
+//@ modifies ghost.opens
+//@ ensures ghost.opens == old(ghost.opens) + 1
+
+//@ extern MetaStore.Update
+//@ modifies ghost.updates, ghost.updateOK, ghost.closeOKAtUpdate
+//@ ensures ghost.updates == old(ghost.updates) + 1
+//@ ensures ghost.updateOK == old(ghost.updateOK) + (result == nil ? 1 : 0)
+//@ ensures ghost.closeOKAtUpdate == ghost.closeOK
+
+//@ extern io.WriteCloser.Write
+//@ modifies ghost.writes
+//@ ensures ghost.writes == old(ghost.writes) + 1
+//@ extern io.Writer.Write
+//@ modifies ghost.writes
+//@ ensures ghost.writes == old(ghost.writes) + 1
+
+//@ extern io.WriteCloser.Close
+//@ modifies ghost.closeCalls, ghost.closeOK
+//@ ensures ghost.closeCalls == old(ghost.closeCalls) + 1
+//@ ensures ghost.closeOK == old(ghost.closeOK) + (result == nil ? 1 : 0)
+
+// interface{ Abort() error }, asserted from a writer by abortFileWriter
+//@ extern interface.Abort
+//@ modifies ghost.aborts
+//@ ensures ghost.aborts == old(ghost.aborts) + 1
+
+//@ extern (*slog.Logger).Warn
+//@ pure
+//@ extern (*slog.Logger).Debug
+//@ pure
+//@ extern (*slog.Logger).Enabled
+//@ pure
+//@ extern (*bytes.Buffer).Bytes
+//@ pure
+//@ extern (*bytes.Buffer).Len
+//@ pure
+//@ ensures result >= 0
+
+// ---------------------------------------------------------------------------
+// chan_helpers.go (C05, C06)
+// ---------------------------------------------------------------------------
+
+//@ func sendWithContext[error]
+//@ props C05 C06
+//@ modifies ghost.sends, ghost.nilsends, ghost.recvs
+//@ ensures result == nil ==> sent(ch) == old(sent(ch)) + 1
+//@ ensures result != nil ==> sent(ch) == old(sent(ch))
+//@ ensures result == nil && value == nil ==> sentnil(ch) == old(sentnil(ch)) + 1
+//@ ensures value != nil ==> sentnil(ch) == old(sentnil(ch))
+//@ ensures forall c :: c != ch ==> sent(c) == old(sent(c)) && sentnil(c) == old(sentnil(c))
+
+//@ func sendOptionalWithContext[error]
+//@ props C05 C06
+//@ entry ghost.attempts = ghost.attempts + 1
+//@ modifies ghost.attempts, ghost.sends, ghost.nilsends, ghost.recvs
+//@ ensures ghost.attempts == old(ghost.attempts) + 1
+//@ ensures ch == nil ==> result == nil
+//@ ensures ch != nil && result == nil ==> sent(ch) == old(sent(ch)) + 1
+//@ ensures ch == nil || result != nil ==> sent(ch) == old(sent(ch))
+//@ ensures value != nil ==> sentnil(ch) == old(sentnil(ch))
+//@ ensures forall c :: c != ch ==> sent(c) == old(sent(c)) && sentnil(c) == old(sentnil(c))
+
+// Every waiter is attempted exactly once, even after an earlier send failed.
+//@ func sendToChannelsWithContext[error]
+//@ props C05 C06
+//@ entry ghost.sendRounds = ghost.sendRounds + 1
+//@ entry ghost.nilRounds = value == nil ? ghost.nilRounds + 1 : ghost.nilRounds
+//@ entry ghost.updateOKAtNilRound = value == nil ? ghost.updateOK : ghost.updateOKAtNilRound
+//@ modifies ghost.attempts, ghost.sendRounds, ghost.nilRounds, ghost.updateOKAtNilRound, ghost.sends, ghost.nilsends, ghost.recvs
+//@ ensures value == nil ==> ghost.updateOKAtNilRound == ghost.updateOK
+//@ ensures value != nil ==> ghost.updateOKAtNilRound == old(ghost.updateOKAtNilRound)
+//@ loop 0 invariant ghost.updateOKAtNilRound == (value == nil ? ghost.updateOK : old(ghost.updateOKAtNilRound))
+//@ loop 0 invariant -1 <= $index && $index < len(channels) && ghost.attempts == old(ghost.attempts) + $index + 1
+//@ loop 0 invariant ghost.sendRounds == old(ghost.sendRounds) + 1 && ghost.nilRounds == old(ghost.nilRounds) + (value == nil ? 1 : 0)
+//@ loop 0 invariant value != nil ==> forall c :: sentnil(c) == old(sentnil(c))
+//@ ensures ghost.attempts == old(ghost.attempts) + len(channels)
+//@ ensures ghost.sendRounds == old(ghost.sendRounds) + 1
+//@ ensures ghost.nilRounds == old(ghost.nilRounds) + (value == nil ? 1 : 0)
+//@ ensures value != nil ==> forall c :: sentnil(c) == old(sentnil(c))
+
+// ---------------------------------------------------------------------------
+// flush.go (C05, C06, C08, C13)
+// ---------------------------------------------------------------------------
+
+// abortFileWriter: Abort iff the writer has it, else Close iff not already
+// attempted, then always TombstoneFile — for every outcome of those calls.
+//@ func (*BloomSearchEngine).abortFileWriter
+//@ props C06 C13
+//@ requires b != nil
+//@ modifies ghost.aborts, ghost.closeCalls, ghost.closeOK, ghost.tombstones, ghost.updateOKAtTombstone
+//@ ensures ghost.tombstones == old(ghost.tombstones) + 1
+//@ ensures ghost.updateOKAtTombstone == ghost.updateOK
+//@ ensures ghost.aborts + ghost.closeCalls <= old(ghost.aborts) + old(ghost.closeCalls) + 1
+//@ ensures ghost.aborts >= old(ghost.aborts) && ghost.closeCalls >= old(ghost.closeCalls)
+//@ ensures closeAttempted ==> ghost.closeCalls == old(ghost.closeCalls)
+//@ ensures !closeAttempted ==> ghost.aborts + ghost.closeCalls == old(ghost.aborts) + old(ghost.closeCalls) + 1
+//@ ensures ghost.closeOK >= old(ghost.closeOK)
+
+// handleFlush, for every combination of failing store calls:
+//   - exactly one answer round, attempting every waiter once (C05);
+//   - a nil answer round for a non-empty request starts only after Close and
+//     Update both returned nil, and Update is called only after Close returned
+//     nil (C06);
+//   - an error answer means Update did not succeed, and a created file was
+//     tombstoned (C06);
+//   - with the flush context already done: no store call at all (C08).
+//@ func (*BloomSearchEngine).handleFlush
+//@ props C05 C06 C08
+//@ requires b != nil
+//@ modifies all
+//@ loop 0 invariant ghost.creates == old(ghost.creates) + 1 && ghost.created == old(ghost.created) + 1
+//@ loop 0 invariant ghost.closeCalls == old(ghost.closeCalls) && ghost.closeOK == old(ghost.closeOK) && ghost.aborts == old(ghost.aborts)
+//@ loop 0 invariant ghost.updates == old(ghost.updates) && ghost.updateOK == old(ghost.updateOK) && ghost.tombstones == old(ghost.tombstones)
+//@ loop 0 invariant ghost.sendRounds == old(ghost.sendRounds) && ghost.nilRounds == old(ghost.nilRounds) && ghost.attempts == old(ghost.attempts)
+//@ loop 0 invariant ghost.updateOKAtNilRound == old(ghost.updateOKAtNilRound)
+//@ loop 0 invariant len(flushReq.doneChans) == old(len(flushReq.doneChans)) && len(flushReq.partitionBuffers) > 0
+//@ ensures [C05] ghost.sendRounds == old(ghost.sendRounds) + 1
+//@ ensures [C05] ghost.attempts == old(ghost.attempts) + len(flushReq.doneChans)
+//@ ensures [C05,C06] ghost.nilRounds <= old(ghost.nilRounds) + 1
+//@ ensures [C06] ghost.nilRounds > old(ghost.nilRounds) && len(flushReq.partitionBuffers) > 0 ==> ghost.updateOKAtNilRound == old(ghost.updateOK) + 1 && ghost.closeOK == old(ghost.closeOK) + 1
+//@ ensures [C06] ghost.updates > old(ghost.updates) ==> ghost.closeOKAtUpdate == old(ghost.closeOK) + 1
+//@ ensures [C06] ghost.updates <= old(ghost.updates) + 1 && ghost.creates <= old(ghost.creates) + 1
+//@ ensures [C06] ghost.nilRounds == old(ghost.nilRounds) ==> ghost.updateOK == old(ghost.updateOK)
+//@ ensures [C06] ghost.nilRounds == old(ghost.nilRounds) && ghost.created > old(ghost.created) ==> ghost.tombstones == old(ghost.tombstones) + 1
+//@ ensures [C06] ghost.nilRounds > old(ghost.nilRounds) ==> ghost.tombstones == old(ghost.tombstones) && ghost.aborts == old(ghost.aborts)
+//@ ensures [C08] old(ghost.recvs[doneChan(ctx)]) > 0 ==> ghost.creates == old(ghost.creates) && ghost.updates == old(ghost.updates) && ghost.nilRounds == old(ghost.nilRounds)
+
 // ---------------------------------------------------------------------------
 // min_max.go
 // ---------------------------------------------------------------------------
